@@ -2562,7 +2562,8 @@ class Env(cabc.MutableMapping):
             # Containers can be edited in place through a reference the
             # caller kept (``p = $PATH; ...; p.append(x)``), which nothing
             # reports to the cache: only these entries are built again.
-            ctx = self._detyped
+            # (a copy: callers add their own entries to what they get)
+            ctx = dict(self._detyped)
             mutable = cabc.MutableSet | cabc.MutableSequence | cabc.MutableMapping
             items = {k: v for k, v in self._d.items() if isinstance(v, mutable)}
         else:
@@ -2592,7 +2593,7 @@ class Env(cabc.MutableMapping):
                 continue
             ctx[key] = deval
         if cacheable:
-            self._detyped = ctx
+            self._detyped = dict(ctx)
         return ctx
 
     def detype_all(self):
